@@ -332,48 +332,14 @@ func init() {
 	// (exec store #entry (exts ...) esc globals vars data fuel) with meta (files ...)
 	h.RegisterImpl("exec", func(cmd, meta *sx.Sexp) (*sx.Sexp, string) {
 		_, files := filesOf(meta)
-		entry := string(cmd.Xs[2].B)
-		esc := cmd.Xs[4].A
-		set := newSetFor(files, esc, cmd.Xs[5])
-		t, err := set.GetTemplate(entry)
-		if err != nil {
-			return sx.L(sx.A("parse-error")), ""
-		}
-		vars := jet.VarMap{}
-		for _, g := range cmd.Xs[6].Xs {
-			vars.Set(string(g.Xs[0].B), decodeVal(g.Xs[1]))
-		}
-		data := decodeVal(cmd.Xs[7])
-		probeLog = nil
-		var buf bytes.Buffer
-		var xerr error
-		func() {
-			defer func() {
-				if e := recover(); e != nil {
-					xerr = crashErr{fmt.Sprint(e)}
-				}
-			}()
-			xerr = t.Execute(&buf, vars, data)
-		}()
-		if ce, ok := xerr.(crashErr); ok {
-			_ = ce
-			return sx.L(sx.A("crash"), outSexp(buf.Bytes())), "Execute panicked: " + ce.msg
-		}
-		oracle := checkExpectation(meta, buf.Bytes(), xerr)
-		if xerr != nil {
-			if dbg := os.Getenv("JV_DEBUG"); dbg != "" {
-				if f, ferr := os.OpenFile(dbg, os.O_APPEND|os.O_CREATE|os.O_WRONLY, 0o644); ferr == nil {
-					fmt.Fprintln(f, xerr.Error())
-					f.Close()
-				}
-			}
-			loc, p, ln := errObs(xerr)
-			return sx.L(sx.A("err"), loc, p, ln, outSexp(buf.Bytes()), logSexp()), oracle
-		}
-		return sx.L(sx.A("ok"), outSexp(buf.Bytes()), logSexp()), oracle
+		return prepareExec(cmd, files).run(cmd, meta)
 	})
 	// model output: render float placeholders with the implementation's formatter, merge pieces
-	h.ModelNormalizers["exec"] = func(m *sx.Sexp) *sx.Sexp {
+	h.ModelNormalizers["exec"] = normalizeExecModel
+}
+
+func normalizeExecModel(m *sx.Sexp) *sx.Sexp {
+	{
 		if m.K != sx.List || len(m.Xs) < 2 {
 			return m
 		}
@@ -410,6 +376,63 @@ func init() {
 		}
 		return m
 	}
+}
+
+// preparedExec: a Set and the entry template of one (exec ...) command
+type preparedExec struct {
+	set *jet.Set
+	t   *jet.Template
+}
+
+func prepareExec(cmd *sx.Sexp, files map[string]string) *preparedExec {
+	set := newSetFor(files, cmd.Xs[4].A, cmd.Xs[5])
+	t, err := set.GetTemplate(string(cmd.Xs[2].B))
+	if err != nil {
+		return &preparedExec{set: set}
+	}
+	return &preparedExec{set: set, t: t}
+}
+
+// run executes the entry template once and returns the observation and the direct-oracle verdict
+func (pe *preparedExec) run(cmd, meta *sx.Sexp) (*sx.Sexp, string) {
+	if pe.t == nil {
+		return sx.L(sx.A("parse-error")), ""
+	}
+	t := pe.t
+	vars := jet.VarMap{}
+	for _, g := range cmd.Xs[6].Xs {
+		vars.Set(string(g.Xs[0].B), decodeVal(g.Xs[1]))
+	}
+	data := decodeVal(cmd.Xs[7])
+	probeLog = nil
+	var buf bytes.Buffer
+	var xerr error
+	func() {
+		defer func() {
+			if e := recover(); e != nil {
+				xerr = crashErr{fmt.Sprint(e)}
+			}
+		}()
+		xerr = t.Execute(&buf, vars, data)
+	}()
+	if ce, ok := xerr.(crashErr); ok {
+		return sx.L(sx.A("crash"), outSexp(buf.Bytes())), "Execute panicked: " + ce.msg
+	}
+	oracle := ""
+	if meta != nil {
+		oracle = checkExpectation(meta, buf.Bytes(), xerr)
+	}
+	if xerr != nil {
+		if dbg := os.Getenv("JV_DEBUG"); dbg != "" {
+			if f, ferr := os.OpenFile(dbg, os.O_APPEND|os.O_CREATE|os.O_WRONLY, 0o644); ferr == nil {
+				fmt.Fprintln(f, xerr.Error())
+				f.Close()
+			}
+		}
+		loc, p, ln := errObs(xerr)
+		return sx.L(sx.A("err"), loc, p, ln, outSexp(buf.Bytes()), logSexp()), oracle
+	}
+	return sx.L(sx.A("ok"), outSexp(buf.Bytes()), logSexp()), oracle
 }
 
 // checkExpectation: the direct oracle of constructive cases (expected output / error position
